@@ -20,7 +20,7 @@ var c10Rules = map[string]bool{"stream-escrow-moved": true, "stream-escrow-vs-de
 var c11Rules = map[string]bool{"stream-deposit": true, "deposit-zero-time": true, "last-release-time": true, "deposit-cannot-sustain-rate": true, "stream-rate": true,
 	"stream-balance-delta": true, "stream-missing": true, "stream-unexpected": true, "op-on-unknown-stream": true, "create-over-existing": true,
 	"pure-amount-to-claim": true, "pure-duration": true, "pure-validator-fee": true, "pure-panic": true}
-var c12Rules = map[string]bool{"stranded-claim": true, "stranded-cancel": true, "stranded-topup": true, "stream-op-panic": true, "pure-panic": true, "cancel-refund": true}
+var c12Rules = map[string]bool{"stranded-claim": true, "stranded-cancel": true, "stranded-topup": true, "stream-op-panic": true, "pure-panic": true, "cancel-refund": true, "stranded-surplus-in-escrow": true}
 
 func init() {
 	cases := func(q, t int) func(string) int {
